@@ -11,9 +11,10 @@ Go state: `Peer` (only `MetadataSize()` is read, `RequestMetadataPiece` is the o
 * `uint32` arithmetic is on `Nat`: `MetadataSize()` is a `uint32`, so `sz < 2^32`; every index
   that passes the `index >= len(blocks)` guard satisfies `index*bs + size ≤ sz`
   (`Lemmas.InfoDownloader.range_le`), so nothing wraps.
-* `pending` is a Go `int` and is decremented by every accepted answer, including a *repeated*
-  answer for an index already answered — the code does not remember which blocks were received.
-  The model keeps this (pending : Int, may go negative); nothing is "fixed" here.
+* `pending` is a Go `int`, decremented by every accepted answer. Since the repair of finding C17-F6 a block
+  remembers that it was received and a repeated answer is refused (`GotErr.duplicate`), so `pending` is the number
+  of requested, not yet received blocks (`idl_pending_counts_outstanding`); before, a repeated answer was counted
+  again and `pending` went negative (`idl_repeat_unfixed_counterexample`).
 * `copy(d.Bytes[begin:end], data)` panics when `end > len(Bytes)`; that is an explicit outcome
   (`GotRes.panic`), shown unreachable from `new` in Lemmas.
 
